@@ -57,12 +57,15 @@ func c03Leftovers(root string) []string {
 	return out
 }
 
+var c03DirSeq int
+
 // c03Run returns false if the reorganisation was a no-op for this layout.
 func c03Run(rep *kit.Report, scratch string, c c03Case, seenInputs map[uint64]bool) bool {
 	cpu.SetCpuNum(2, 1)
 	immutable.VerifCopyPieceSize = c.Piece
 	defer func() { immutable.VerifCopyPieceSize = 0 }()
-	root := vMkdir(scratch, "live") + "/"
+	c03DirSeq++ // a directory of its own per case (path-keyed process caches of the engine; see c01History)
+	root := vMkdir(scratch, fmt.Sprintf("live%d", c03DirSeq)) + "/"
 	imgRoot := vMkdir(scratch, "img")
 	work := strings.TrimSuffix(root, "/")
 	defer func() {
